@@ -5,7 +5,7 @@ package grpc
 // C21 driver: effective message size limits.
 //
 //	op [1, mset, m, dset, d, def]   *getMaxSize(mc, dopt, def)            obs [result]
-//	op [2, 8 x (set, value), comp, nreq, patreq, nresp, patresp]
+//	op [2, 8 x (set, value), comp, nreq, patreq, nresp, patresp, prepreq, prepresp]
 //	     one unary exchange between a fresh Server (MaxRecvMsgSize / MaxSendMsgSize when set)
 //	     and a fresh ClientConn over bufconn; the option pairs are, in order:
 //	     service config maxRequestMessageBytes, maxResponseMessageBytes (default service config),
@@ -13,6 +13,8 @@ package grpc
 //	     per-call MaxCallSendMsgSize, per-call MaxCallRecvMsgSize, server MaxRecvMsgSize,
 //	     server MaxSendMsgSize.  comp = 1: UseCompressor(test compressor).  A message is n bytes,
 //	     pat 0 = all 'A', otherwise byte i = i mod 251; the codec is the identity on bytes.
+//	     prepreq / prepresp = 1: the client / the server handler pre-encodes its message with
+//	     PreparedMsg.Encode and passes the *PreparedMsg to SendMsg.
 //	obs [effSend, effRecv, code, srvGot, reqIntact, srvRecvExh, srvSent, srvSendExh, cliGot, respIntact]
 //	     effSend/effRecv are read from the clientStream's callInfo after NewStream.
 //
@@ -190,6 +192,7 @@ type vMsgLimitsSrvRec struct {
 func vMsgLimitsExchange(w []int64) []int64 {
 	opt := func(i int) *int { return vMsgLimitsPtr(w[2*i], w[2*i+1]) }
 	comp, nreq, patreq, nresp, patresp := w[16] != 0, w[17], w[18], w[19], w[20]
+	prepReq, prepResp := w[21] != 0, w[22] != 0
 
 	// server
 	var sopts []ServerOption
@@ -216,7 +219,15 @@ func vMsgLimitsExchange(w []int64) []int64 {
 		if err != nil {
 			return err
 		}
-		err = stream.SendMsg(&vMsgLimitsMsg{b: vMsgLimitsBuild(nresp, patresp)})
+		var out any = &vMsgLimitsMsg{b: vMsgLimitsBuild(nresp, patresp)}
+		if prepResp {
+			pm := new(PreparedMsg)
+			if err := pm.Encode(stream, out); err != nil {
+				return err
+			}
+			out = pm
+		}
+		err = stream.SendMsg(out)
 		rec.mu.Lock()
 		if err == nil {
 			rec.sent = true
@@ -283,7 +294,16 @@ func vMsgLimitsExchange(w []int64) []int64 {
 		if cs, ok := inner.(*clientStream); ok {
 			effSend, effRecv = int64(*cs.callInfo.maxSendMessageSize), int64(*cs.callInfo.maxReceiveMessageSize)
 		}
-		err = st.SendMsg(&vMsgLimitsMsg{b: vMsgLimitsBuild(nreq, patreq)})
+		var req any = &vMsgLimitsMsg{b: vMsgLimitsBuild(nreq, patreq)}
+		if prepReq {
+			pm := new(PreparedMsg)
+			if err = pm.Encode(st, req); err == nil {
+				req = pm
+			}
+		}
+		if err == nil {
+			err = st.SendMsg(req)
+		}
 		if err == nil || err == io.EOF {
 			st.CloseSend()
 			out := new(vMsgLimitsMsg)
@@ -311,7 +331,7 @@ func vMsgLimitsExec(cfg []int64, ops [][]int64) ([][]int64, bool, []string) {
 		case len(op) == 6 && op[0] == 1:
 			obs = append(obs, []int64{int64(*getMaxSize(vMsgLimitsPtr(op[1], op[2]), vMsgLimitsPtr(op[3], op[4]), int(op[5])))})
 			tags["getMaxSize"] = true
-		case len(op) == 22 && op[0] == 2 && op[18] >= 0 && op[20] >= 0 && op[18] <= 1<<26 && op[20] <= 1<<26:
+		case len(op) == 24 && op[0] == 2 && op[18] >= 0 && op[20] >= 0 && op[18] <= 1<<26 && op[20] <= 1<<26:
 			o := vMsgLimitsExchange(op[1:])
 			obs = append(obs, o)
 			switch {
@@ -349,12 +369,17 @@ func vMsgLimitsExec(cfg []int64, ops [][]int64) ([][]int64, bool, []string) {
 
 const vMsgLimitsMiB4 = 4194304
 
-func vMsgLimitsOp(o [8][2]int64, comp, nreq, patreq, nresp, patresp int64) []int64 {
+func vMsgLimitsOpP(o [8][2]int64, comp, nreq, patreq, nresp, patresp, prepreq, prepresp int64) []int64 {
 	w := []int64{2}
 	for _, p := range o {
 		w = append(w, p[0], p[1])
 	}
-	return append(w, comp, nreq, patreq, nresp, patresp)
+	return append(w, comp, nreq, patreq, nresp, patresp, prepreq, prepresp)
+}
+
+// without PreparedMsg
+func vMsgLimitsOp(o [8][2]int64, comp, nreq, patreq, nresp, patresp int64) []int64 {
+	return vMsgLimitsOpP(o, comp, nreq, patreq, nresp, patresp, 0, 0)
 }
 
 func vMsgLimitsGen(r *vRand, tier string, idx int) ([]int64, [][]int64) {
@@ -416,6 +441,14 @@ func vMsgLimitsGen(r *vRand, tier string, idx int) ([]int64, [][]int64) {
 						var o2 [8][2]int64
 						o2[7] = [2]int64{1, lim}
 						ops = append(ops, vMsgLimitsOp(o2, comp, 2, 1, n, pat))
+						if n >= lim-1 && n <= lim+1 {
+							// the same boundary with pre-encoded messages: server send limit
+							// (prepared response) and client send limit (prepared request)
+							ops = append(ops, vMsgLimitsOpP(o2, comp, 2, 1, n, pat, 0, 1))
+							var o3 [8][2]int64
+							o3[4] = [2]int64{1, lim}
+							ops = append(ops, vMsgLimitsOpP(o3, comp, n, pat, 2, 1, 1, 0))
+						}
 					}
 				}
 			}
@@ -438,6 +471,23 @@ func vMsgLimitsGen(r *vRand, tier string, idx int) ([]int64, [][]int64) {
 			o4[5] = [2]int64{1, lim}
 			ops = append(ops, vMsgLimitsOp(o4, 1, 1, 1, 1000, 0), vMsgLimitsOp(o4, 1, 1, 1, 1000, 1))
 		}
+	case idx == 5:
+		// limits of 2^32 and above (int is 64-bit): every source, small messages well within
+		// them, and one limit small enough to bite next to a huge one
+		big := []int64{1 << 32, 1<<32 + 64, 8 << 30, 1<<32 - 1, 1 << 31, maxInt}
+		for _, b := range big {
+			for src := 0; src < 8; src++ {
+				var o [8][2]int64
+				o[src] = [2]int64{1, b}
+				ops = append(ops, vMsgLimitsOpP(o, int64(src%2), 100, 1, 100, 1, int64(src/4%2), int64(src/2%2)))
+			}
+			var o [8][2]int64
+			o[1], o[5] = [2]int64{1, 8 << 30}, [2]int64{1, b} // service config 8 GiB, call option b
+			ops = append(ops, vMsgLimitsOp(o, 0, 1000, 1, 1000, 1))
+			var o2 [8][2]int64
+			o2[0], o2[2] = [2]int64{1, b}, [2]int64{1, 64} // send: service config b, dial option 64
+			ops = append(ops, vMsgLimitsOp(o2, 0, 65, 1, 1, 1), vMsgLimitsOp(o2, 0, 64, 1, 1, 1))
+		}
 	default:
 		// random: limits from a small pool, message sizes near the smallest applicable limit
 		pool := []int64{0, 1, 5, 9, 10, 11, 16, 32, 33, 64}
@@ -445,8 +495,8 @@ func vMsgLimitsGen(r *vRand, tier string, idx int) ([]int64, [][]int64) {
 			if !r.Chance(p) {
 				return [2]int64{0, 0}
 			}
-			if r.Chance(5) {
-				return [2]int64{1, r.PickI64(vMsgLimitsMiB4, 2147483647, maxInt)}
+			if r.Chance(12) {
+				return [2]int64{1, r.PickI64(vMsgLimitsMiB4, 2147483647, 1<<32, 1<<32+64, 1<<32+5, 8<<30, maxInt)}
 			}
 			return [2]int64{1, pool[r.Intn(len(pool))]}
 		}
@@ -473,12 +523,13 @@ func vMsgLimitsGen(r *vRand, tier string, idx int) ([]int64, [][]int64) {
 			if r.Chance(40) {
 				comp = 1
 			}
-			ops = append(ops, vMsgLimitsOp(o, comp, size(), int64(r.Intn(2)), size(), int64(r.Intn(2))))
+			ops = append(ops, vMsgLimitsOpP(o, comp, size(), int64(r.Intn(2)), size(), int64(r.Intn(2)),
+				vB(r.Chance(35)), vB(r.Chance(35))))
 		}
 	}
 	return nil, ops
 }
 
 func TestVerif_MsgLimits(t *testing.T) {
-	vRunDriver(t, "MsgLimits", 20, 600, vMsgLimitsGen, vMsgLimitsExec)
+	vRunDriver(t, "MsgLimits", 21, 600, vMsgLimitsGen, vMsgLimitsExec)
 }
